@@ -228,6 +228,15 @@ rule('X8', 'cli', r"    new_prompt: Option<&'static str>,\n    writer: Writer<'a
      "    pub new_prompt: Option<&'static str>,\n    pub writer: Writer<'a, W, E>,\n}", 1,
      'visibility only (see X8 for Autocompletion): CliHandle fields public in the mirror so that contracts of its '
      'public methods and of CommandProcessor::process can speak about the wrapped Writer')
+rule('D10', 'cli', r"editor\.autocompletion\(\|request, autocompletion\| \{",
+     "editor.autocompletion(|request: Request<'_>, autocompletion: &mut Autocompletion<'_>| {", 1,
+     'closure parameters annotated with the types the callee signature gives them (needed to attach a closure contract)')
+rule('X6', 'cli', r"^use crate::autocomplete::Request;", "use crate::autocomplete::{Autocompletion, Request};", 1,
+     'import of the type named in the closure parameter annotation')
+rule('D13', 'cli', r"NavigateInput::Backward if editor\.move_left\(\) => \{\n(\s*)(self\.writer\.flush_bytes\(codes::CURSOR_BACKWARD\)\?;)\n(\s*)\}\n\s*NavigateInput::Forward if editor\.move_right\(\) => \{\n\s*(self\.writer\.flush_bytes\(codes::CURSOR_FORWARD\)\?;)\n\s*\}\n\s*_ => return Ok\(\(\)\),",
+     r"NavigateInput::Backward => if editor.move_left() {\n\1\2\n\3} else { return Ok(()) },\n\3NavigateInput::Forward => if editor.move_right() {\n\1\4\n\3} else { return Ok(()) },", 1,
+     'match guards followed by a `return` arm lose the resolution of final(..) in Verus (tool limitation, see D13 '
+     'for history): guards moved into the arms, same control flow')
 rule('D9', 'cli', r'debug_assert_eq!\(c\.chars\(\)\.count\(\), 1\);', 'proof { assert(c@.len() == 1); }', 1,
      'debug_assert_eq! on the number of chars becomes a proof obligation (it must hold in release builds too)')
 rule('D3', 'cli', r'"help"\.starts_with\(name\)', 'crate::verif_specs::str_starts_with("help", name)', 1,
